@@ -24,6 +24,7 @@ pub open spec fn spec_is_section_header(b0: u8, b1: u8, b2: u8) -> bool { b0 == 
 pub fn is_section_header(b0: u8, b1: u8, b2: u8) -> (r: bool) ensures r == spec_is_section_header(b0, b1, b2) { unimplemented!() }
 
 //@@ fn file=fe2o3-amqp/src/link/resumption.rs name=split_off_at_section_and_offset
+//@@ shape loops=for
 //@@ blockarms
 //@@ subst `let b0 = payload.iter(); let b1 = payload.iter().skip(1); let b2 = payload.iter().skip(2); let zip = b0.zip(b1.zip(b2));` => `let len = payload.len(); let __n: usize = if len >= 2 { len - 2 } else { 0 };` rule=R34
 //@@ subst `for (i, (&b0, (&b1, &b2))) in __it0: zip.enumerate() {` => `for i in __it0: 0..__n { let b0 = payload.byte_at(i); let b1 = payload.byte_at(i + 1); let b2 = payload.byte_at(i + 2);` rule=R34
